@@ -188,15 +188,30 @@ def propRefused (p : PropT) : Bool :=
   (match p.dtype with | some d => endsWith "-tuple" d | none => false) && !p.values.isEmpty &&
     p.values.any valHasSep
 
+/-- The names of a child list as the writer's name check sees them: `isinstance(name, str)`
+    names, trimmed. -/
+def trimmedNames (names : List (Option Str)) : List Str := names.filterMap (fun n => n.map strip)
+
+/-- `save_element` raises `ParserException` on this child list: a name that is blank, or equal
+    after trimming to the name of an earlier sibling (fix e87b2d6; before, such a document was
+    written and loaded to another document, or was refused by the strict reader). -/
+def namesRefused (names : List (Option Str)) : Bool :=
+  (trimmedNames names).any (fun t => t.isEmpty) || !decide (trimmedNames names).Nodup
+
+def secNameOf : SecT → Option Str
+  | .mk _ name _ _ _ _ _ _ _ _ _ _ => name
+
 mutual
 def secRefused : SecT → Bool
-  | .mk _ _ _ _ _ _ _ _ secs props _ _ => props.any propRefused || secsRefused secs
+  | .mk _ _ _ _ _ _ _ _ secs props _ _ =>
+    props.any propRefused || namesRefused (props.map (·.name)) ||
+    namesRefused (secs.map secNameOf) || secsRefused secs
 def secsRefused : List SecT → Bool
   | [] => false
   | s :: ss => secRefused s || secsRefused ss
 end
 
-def docRefused (d : DocT) : Bool := secsRefused d.secs
+def docRefused (d : DocT) : Bool := namesRefused (d.secs.map secNameOf) || secsRefused d.secs
 
 inductive WErr where | valueError | parser deriving Repr, DecidableEq
 
